@@ -75,7 +75,10 @@ def _history_part(ctx: Ctx, quick: bool) -> None:
         has_gc = any(o.get("op") == "collect" for o in case["ops"])
         if not has_gc:
             continue
-        if len(case["ops"]) <= 2 or quick is False:
+        directed = case["ops"] in [[hr.OPS[x] for x in h] for h in hr.GC_DIRECTED]
+        if directed:
+            spells = SPELLINGS
+        elif len(case["ops"]) <= 2 or quick is False:
             spells = SPELLINGS if (not quick or ci % 3 == 0) else r.sample(SPELLINGS, 3)
         else:
             spells = r.sample(SPELLINGS, 2)
@@ -103,6 +106,11 @@ def _collector_part(ctx: Ctx, quick: bool) -> None:
         scns.append(Scenario(f"gc-seq-grace{g}", [A("c1", "committer", [{"t": "append"}, {"t": "delete", "refs": [("init", 1)]}, {"t": "expire", "cutoff": 8}]),
                                                  A("g1", "collector", [{"t": "gc", "grace": g}, {"t": "gc", "grace": g}])],
                              data_age_ms=10_000, orphans=2, init_snaps=3, grace=g))
+    # a delete that keeps part of a multi-file manifest: the survivors are referenced only through the REWRITTEN manifest
+    # (entries with status EXISTING, none ADDED) once the older snapshots are expired
+    scns.append(Scenario("gc-seq-rewritten-manifest", [A("c1", "committer", [{"t": "append", "n": 2}, {"t": "delete", "refs": [("c1", 1, 1)]}, {"t": "expire", "cutoff": 100000}]),
+                                                       A("g1", "collector", [{"t": "gc", "grace": 0}, {"t": "gc", "grace": 0}])],
+                         data_age_ms=10_000, orphans=1, init_snaps=2, grace=0))
     for scn in scns:
         jobs: List[Tuple[str, Any]] = [("list", [["c1", 400], ["g1", 400]]), ("list", [["g1", 400], ["c1", 400]])]
         steps = l1.solo_steps(scn)
